@@ -1207,7 +1207,7 @@ func runR41(c *Ctx) {
 					// the use must be dominated by err == nil (false edge of err != nil)
 					guarded := false
 					for _, g := range dominatingGuards(u.Block()) {
-						if b, ok := g.Cond.(*ssa.BinOp); ok && (b.X == errV || b.Y == errV) {
+						if b, ok := g.Cond.(*ssa.BinOp); ok && (b.X == errV || b.Y == errV || isSpilledCopyOf(b.X, errV) || isSpilledCopyOf(b.Y, errV)) {
 							if (b.Op == token.NEQ && !g.Val) || (b.Op == token.EQL && g.Val) {
 								guarded = true
 							}
@@ -1224,6 +1224,70 @@ func runR41(c *Ctx) {
 			}
 		})
 	}
+}
+
+// isSpilledCopyOf: v is a load of a local cell (a named result kept in memory because the function defers) whose
+// content at the load is orig: orig was stored into the cell and no other store to it can run in between.
+func isSpilledCopyOf(v, orig ssa.Value) bool {
+	ld, ok := v.(*ssa.UnOp)
+	if !ok || ld.Op != token.MUL {
+		return false
+	}
+	cell, ok := ld.X.(*ssa.Alloc)
+	if !ok {
+		return false
+	}
+	var st *ssa.Store
+	var others []*ssa.Store
+	for _, r := range *cell.Referrers() {
+		switch t := r.(type) {
+		case *ssa.Store:
+			if t.Addr != ssa.Value(cell) {
+				return false // the cell's address is stored somewhere
+			}
+			if t.Val == orig && precedes(t, ld) {
+				st = t
+			} else {
+				others = append(others, t)
+			}
+		case *ssa.UnOp, *ssa.DebugRef:
+		default:
+			// closures (the deferred function) may write the cell, but only when they run: at function exit
+			if _, isClosure := r.(*ssa.MakeClosure); !isClosure {
+				return false
+			}
+		}
+	}
+	if st == nil {
+		return false
+	}
+	reach := func(a, b *ssa.BasicBlock) bool {
+		for _, s := range a.Succs {
+			for _, r := range reachableAvoiding(s, nil) {
+				if r == b {
+					return true
+				}
+			}
+		}
+		return false
+	}
+	for _, o := range others {
+		if o.Block() == st.Block() && o.Block() == ld.Block() {
+			if precedes(st, o) && precedes(o, ld) {
+				return false
+			}
+			continue
+		}
+		if st.Block() == ld.Block() {
+			continue // st runs again before ld on every path that comes back to this block
+		}
+		afterSt := o.Block() == st.Block() && precedes(st, o) || o.Block() != st.Block() && reach(st.Block(), o.Block())
+		beforeLd := o.Block() == ld.Block() && precedes(o, ld) || o.Block() != ld.Block() && reach(o.Block(), ld.Block())
+		if afterSt && beforeLd {
+			return false
+		}
+	}
+	return true
 }
 
 // derefUse reports whether instruction u dereferences / invokes on value v.
